@@ -742,7 +742,7 @@ OWN = {'n': 'ISNUMBER', 't': 'ISTEXT', 'l': 'ISLOGICAL', 'b': 'ISBLANK', 'e': 'I
 
 PRED_VALUES = (
     [0, 1, -1, 2, 3, 7, -3, 10 ** 6, 2 ** 53 + 1, -2 ** 40, 0.0, 0.5, -2.5, 0.1, 2.675, 1e300, -1e-300] +
-    ['abc', '', ' ', '3', '-3.5', 'TRUE', 'false', 'é', '1900-01-01', 'a b'] +
+    ['abc', '', ' ', '3', '-3.5', 'TRUE', 'false', 'é', '1900-01-01', 'a b', '#N/A', '#DIV/0!', '#VALUE!'] +
     [True, False, None] +
     [{'$err': c} for c in HOST_CODES] +
     [{'$dt': '2019-11-20T00:00:00'}, {'$dt': '2000-02-29T00:00:00'}, {'$dt': '1900-03-01T00:00:00'},
